@@ -11,6 +11,9 @@ Ties, each run:
 """
 from __future__ import annotations
 
+import json
+import sys
+
 import cgroup
 import gentie
 import pipeline as P
@@ -145,9 +148,80 @@ def tie_stream(ctx, n):
                 break
 
 
+JOBCFG = {"cms_aod": "analyzer_cfg.py", "cms_miniaod": "analyzer_cfg.py"}
+
+
+def jobcfg_stream(ctx):
+    """The job must run over EVERY event of EVERY listed file, or its rows are not the rows the query denotes.
+    The CMS job configuration is itself a program (`analyzer_cfg.py`, rendered from the template): it is executed here
+    against a stub of `FWCore.ParameterSet.Config` with file lists of 1-3 entries, with and without a final newline,
+    and must ask for all events (`maxEvents.input = -1`) and list exactly the given files, in order.
+    (No theorem behind this clause: the configuration's run-time logic is not modelled — DESIGN §8. The ATLAS job
+    options hand `filelist.txt` to ROOT's SampleHandler, which is not executed here.)"""
+    import os
+    import subprocess
+    import tempfile
+
+    stub = (
+        "import sys, types, json\n"
+        "class _O:\n"
+        "    def __init__(self, *a, **k): self.a, self.k = a, k\n"
+        "    def __getattr__(self, n): return _O\n"
+        "class _Proc:\n"
+        "    def __init__(self, *a): pass\n"
+        "    def load(self, *a): pass\n"
+        "cfg = types.ModuleType('FWCore.ParameterSet.Config')\n"
+        "cfg.Process = _Proc\n"
+        "class _U:\n"
+        "    def __getattr__(self, n): return _O\n"
+        "cfg.untracked = _U()\n"
+        "for n in ('Source', 'EDAnalyzer', 'Service', 'Path', 'string', 'int32', 'vstring', 'PSet'): setattr(cfg, n, _O)\n"
+        "for m in ('FWCore', 'FWCore.ParameterSet'): sys.modules[m] = types.ModuleType(m)\n"
+        "sys.modules['FWCore.ParameterSet.Config'] = cfg\n"
+        "ns = {}\n"
+        "exec(compile(open(sys.argv[1]).read(), sys.argv[1], 'exec'), ns)\n"
+        "p = ns['process']\n"
+        "print(json.dumps({'maxEvents': p.maxEvents.k['input'].a[0], 'files': list(p.source.k['fileNames'].a)}))\n"
+    )
+    for b, fname in JOBCFG.items():
+        q = {"k": "Select", "s": {"k": "ds"}, "x": "e1", "f": {"k": "Count", "s": {"k": "coll", "e": {"k": "var", "n": "e1"}, "c": "As", "bank": "ba"}}}
+        r = P.translate_functional(b, qgen.render_functional(q, qgen.metadata(b)))
+        text = (r.get("files") or {}).get(fname) if r.get("ok") else None
+        if not text:
+            ctx.disagreement("job configuration file not rendered", {"backend": b, "file": fname}, "present", "absent")
+            continue
+        for files in (["/data/a.root"], ["/data/a.root", "/data/b.root"], ["/data/b.root", "/data/a.root", "/data/c.root"]):
+            for final_newline in (True, False):
+                d = tempfile.mkdtemp(prefix="vp_jobcfg_")
+                try:
+                    open(os.path.join(d, "analyzer_cfg.py"), "w").write(text)
+                    open(os.path.join(d, "filelist.txt"), "w").write("\n".join(files) + ("\n" if final_newline else ""))
+                    open(os.path.join(d, "stub.py"), "w").write(stub)
+                    p = subprocess.run([sys.executable, "stub.py", "analyzer_cfg.py"], cwd=d, capture_output=True, text=True, timeout=60, env=dict(os.environ, CMS_OUTPUT_FILE="ANALYSIS.root"))
+                finally:
+                    import shutil
+
+                    shutil.rmtree(d, ignore_errors=True)
+                key = f"jobcfg:{b}:{len(files)} files:{'newline' if final_newline else 'no final newline'}"
+                ctx.count("stream:jobcfg")
+                ctx.case(key, True, {"backend": b, "files": files})
+                if p.returncode != 0:
+                    ctx.disagreement("job configuration could not be executed against the FWCore stub", {"backend": b, "files": files}, None, p.stderr[-600:])
+                    continue
+                got = json.loads(p.stdout.strip().splitlines()[-1])
+                want = ["file:" + x for x in files]
+                if got["maxEvents"] != -1:
+                    ctx.violation(key=f"jobcfg:{b}:maxEvents", what=f"the {b} job configuration asks for {got['maxEvents']} events (maxEvents.input), not for all of them (-1): a job over more events writes the rows of the first {got['maxEvents']} only",
+                                  case={"backend": b, "file": fname, "files": files}, observed=got, how="render the package, execute analyzer_cfg.py against a stub of FWCore.ParameterSet.Config, read process.maxEvents")
+                elif [x.strip() for x in got["files"]] != want:
+                    ctx.violation(key=key, what="the job configuration does not list exactly the files of filelist.txt, in order", case={"backend": b, "file": fname, "files": files, "final_newline": final_newline},
+                                  observed=got, how="render the package, execute analyzer_cfg.py against a stub of FWCore.ParameterSet.Config with this filelist.txt")
+
+
 def run(ctx):
     n_tie = 240 if ctx.tier == "quick" else 3000
     _P.known(ctx)
+    jobcfg_stream(ctx)
     tie_stream(ctx, n_tie)
     # the differential stream (known findings were replayed above)
     saved = _P.known
